@@ -27,6 +27,17 @@ def run(ctx):
             p = P.default_params(fam, rng)
             n = rng.randint(10, 14) if batch else (rng.randint(200, 350) if fam != "KdqTreeStreaming" else rng.randint(120, 200))
             ts.append(P.clean_slate(fam, p, P.gen_items(fam, rng, n), rng.randrange(10 ** 6), (), user_reset=True, no_initial_ref=(i % 2 == 0)))
+    # CUSUM on plateaus (repeated values) with a short burn-in: the re-estimated deviation of the last burn_in observations can be exactly 0
+    for i in range(6 if q else 40):
+        p = dict(burn_in=rng.choice([2, 3]), threshold=rng.choice([2.0, 4.0]), delta=0.005, direction=rng.choice([None, "positive", "negative"]))
+        if i % 2 == 0:
+            p.update(target=0.0, sd_hat=1.0)
+        items, lvl = [], 0.0
+        while len(items) < 120:
+            lvl = float(rng.choice([-6, -3, 0, 2, 5, 9]))
+            seg = rng.randint(6, 25)
+            items += [lvl + (rng.choice([-0.5, 0.5]) if rng.random() < 0.15 else 0.0) for _ in range(seg)]
+        ts.append(P.clean_slate("CUSUM", p, items[:120], rng.randrange(10 ** 6)))
     # set_reference in the middle of a quiet epoch (no drift pending): still a clean slate
     for fam in ("KdqTreeBatch", "HDDDM", "CDBD", "NNDVI"):
         for i in range(3 if q else 15):
